@@ -162,6 +162,72 @@ func loadPkg(dir string) *pkg {
 	return p
 }
 
+// checkNoSharedState fails unless the named files are free of shared mutable state: no import of
+// sync / sync/atomic / unsafe, and every package-level `var` is an `errors.New("…")` sentinel or a
+// byte-slice literal constant (aeskw's defaultIV).
+func checkNoSharedState(p *pkg, names ...string) {
+	for _, n := range names {
+		f, ok := p.files[n]
+		if !ok {
+			failf(token.NoPos, "file %s not found in %s", n, p.dir)
+		}
+		for _, im := range f.Imports {
+			path := strings.Trim(im.Path.Value, `"`)
+			if path == "sync" || path == "sync/atomic" || path == "unsafe" {
+				failf(im.Pos(), "%s imports %q: shared state between calls (e.g. a sync.Pool) is a shape the C03 model does not have — results must not be derived from pooled/shared buffers", n, path)
+			}
+		}
+		for _, d := range f.Decls {
+			gd, ok := d.(*ast.GenDecl)
+			if !ok || gd.Tok != token.VAR {
+				continue
+			}
+			for _, sp := range gd.Specs {
+				vs := sp.(*ast.ValueSpec)
+				for i, name := range vs.Names {
+					if i >= len(vs.Values) {
+						failf(name.Pos(), "%s: package-level variable %s without initialiser (shared mutable state: unknown shape)", n, name.Name)
+					}
+					if !stateFreeInit(vs.Values[i]) {
+						failf(name.Pos(), "%s: package-level variable %s = %s is neither an errors.New sentinel nor a byte literal (shared mutable state: unknown shape)", n, name.Name, show(vs.Values[i]))
+					}
+				}
+			}
+		}
+	}
+}
+
+func stateFreeInit(e ast.Expr) bool {
+	switch v := e.(type) {
+	case *ast.CallExpr:
+		sel, ok := v.Fun.(*ast.SelectorExpr)
+		if !ok || len(v.Args) != 1 {
+			return false
+		}
+		x, ok := sel.X.(*ast.Ident)
+		if !ok || x.Name != "errors" || sel.Sel.Name != "New" {
+			return false
+		}
+		_, isStr := strLit(v.Args[0])
+		return isStr
+	case *ast.CompositeLit:
+		at, ok := v.Type.(*ast.ArrayType)
+		if !ok || at.Len != nil {
+			return false
+		}
+		if id, ok := at.Elt.(*ast.Ident); !ok || id.Name != "byte" {
+			return false
+		}
+		for _, el := range v.Elts {
+			if _, ok := el.(*ast.BasicLit); !ok {
+				return false
+			}
+		}
+		return true
+	}
+	return false
+}
+
 func (p *pkg) file(name string) *ast.File {
 	f, ok := p.files[name]
 	if !ok {
@@ -1827,6 +1893,13 @@ func main() {
 		aead:   loadPkg(filepath.Join(*repo, "crypto", "aescbcaead")),
 		kw:     loadPkg(filepath.Join(*repo, "crypto", "aeskw")),
 	}
+	// The model of C03 has no state shared between calls: every helper returns freshly allocated
+	// slices. Package-level mutable state (a sync.Pool, a cache, a scratch buffer) in the anchored
+	// files is a shape the model does not have — refuse to translate it.
+	checkNoSharedState(g.crypto, "crypto.go", "symmetric.go", "asymmetric_enc.go", "asymmetric_sig.go", "consts.go")
+	checkNoSharedState(g.aead, "aescbcaead.go")
+	checkNoSharedState(g.kw, "keywrap.go")
+	checkNoSharedState(loadPkg(filepath.Join(*repo, "crypto", "padding")), "pkcs7_padding.go")
 	text := g.generate()
 	if err := os.WriteFile(*out, []byte(text), 0o644); err != nil {
 		failf(token.NoPos, "%v", err)
